@@ -33,11 +33,11 @@ Hypothesis Hu : sch_names_unique s.
 Hypothesis Hm : sch_no_meta_fields s.
 Hypothesis Hstr : sch_has_string s.
 Hypothesis Hcov : known_covariant s d = false.
-Hypothesis Halias : rd_alias_consistent d = true.
 Hypothesis Hfr : frags_typed s (rd_frags d).
 
 Notation tsel := (tsel_ok s d).
 Notation tfield := (tfield_ok s d).
+Notation mergeable := (ex_mergeable s (rd_frags d)).
 
 (* the new errors of the model are the reference's, reversed *)
 Definition agree {A} (st st' : list gerr) (res : option A) (ref : option A * list gerr) : Prop :=
@@ -166,7 +166,7 @@ End Items.
 (* ---------------------------------------------------------------- the four functions *)
 Definition S_selset (f1 : nat) : Prop :=
   forall f2 rpath otn oimpls oid sels st log res st' log',
-    ex_get_object s otn = Some oimpls -> Forall (tsel otn oimpls) sels ->
+    ex_get_object s otn = Some oimpls -> Forall (tsel otn oimpls) sels -> mergeable sels ->
     run_sync w (ex_selset f1 cx rpath otn oimpls oid sels st) log = (res, st', log') -> res <> XrFuel ->
     existsb (fun f => rt_out_of_fuel (snd f)) (rf_selset f2 e otn oid sels) = false ->
     agree st st' (xr_opt res) (rfp_fields rpath (rf_selset f2 e otn oid sels) []).
@@ -175,6 +175,7 @@ Definition S_field (f1 : nat) : Prop :=
   forall f2 rpath otn oimpls oid fdef f0 rest st log res st' log',
     ex_get_object s otn = Some oimpls -> td_type_field s otn (rs_name f0) = Some fdef ->
     Forall (tfield otn oimpls) (f0 :: rest) -> Forall (fun g => rs_dty g = fd_ty fdef) (f0 :: rest) ->
+    mergeable (flat_map rs_sels (f0 :: rest)) ->
     run_sync w (ex_field f1 cx rpath otn oimpls oid fdef f0 rest st) log = (res, st', log') -> res <> XrFuel ->
     rt_out_of_fuel (rf_field f2 e otn oid fdef (f0 :: rest)) = false ->
     agree st st' (xr_opt res) (rf_prop (fd_ty fdef) rpath (rf_field f2 e otn oid fdef (f0 :: rest))).
@@ -184,14 +185,14 @@ Definition fields_at (otn : str) (oimpls : list str) (t : ty) (fields : list rse
 
 Definition S_complete (f1 : nat) : Prop :=
   forall f2 rpath t r otn oimpls f0 rest st log res st' log',
-    fields_at otn oimpls t (f0 :: rest) ->
+    fields_at otn oimpls t (f0 :: rest) -> mergeable (flat_map rs_sels (f0 :: rest)) ->
     run_sync w (ex_complete f1 cx rpath t r f0 rest st) log = (res, st', log') -> res <> XrFuel ->
     rt_out_of_fuel (rf_complete f2 e t r (f0 :: rest)) = false ->
     agree st st' (xr_opt (ex_try_nullify t res)) (rf_prop t rpath (rf_complete f2 e t r (f0 :: rest))).
 
 Definition S_list (f1 : nat) : Prop :=
   forall f2 rpath t items otn oimpls f0 rest st log res st' log',
-    fields_at otn oimpls t (f0 :: rest) ->
+    fields_at otn oimpls t (f0 :: rest) -> mergeable (flat_map rs_sels (f0 :: rest)) ->
     run_sync w (ex_list f1 cx rpath t f0 rest items st) log = (res, st', log') -> res <> XrFuel ->
     rt_out_of_fuel (rf_complete f2 e t (RvList items) (f0 :: rest)) = false ->
     agree st st' (xr_opt (ex_try_nullify t res)) (rf_prop t rpath (rf_complete f2 e t (RvList items) (f0 :: rest))).
@@ -272,7 +273,7 @@ Proof. trivial. Qed.
 (* objects *)
 Lemma named_obj_sim f1 f2 tp n id tname rpath otn oimpls f0 rest st log res st' log' :
   S_selset f1 ->
-  ex_named tp = Some n -> fields_at otn oimpls tp (f0 :: rest) ->
+  ex_named tp = Some n -> fields_at otn oimpls tp (f0 :: rest) -> mergeable (flat_map rs_sels (f0 :: rest)) ->
   run_sync w
     (match sch_get_type (ex_schema cx) n with
      | None => ex_fail EcBug rpath
@@ -299,7 +300,7 @@ Lemma named_obj_sim f1 f2 tp n id tname rpath otn oimpls f0 rest st log res st' 
   rt_out_of_fuel tree = false ->
   agree st st' (xr_opt (ex_try_nullify tp res)) (rf_prop tp rpath (nnw tp tree)).
 Proof.
-  intros IHs Hn Hfs H Hres tree Hoof. subst tree. cbn [e rf_s cx ex_cx_for ex_schema] in *.
+  intros IHs Hn Hfs Hmg H Hres tree Hoof. subst tree. cbn [e rf_s cx ex_cx_for ex_schema] in *.
   unfold rf_is_leaf_type, rf_is_composite in *.
   assert (Hnn : forall c, nnw tp (RtFail c) = RtFail c) by (intros c; unfold nnw; destruct (is_non_null tp); reflexivity).
   assert (Hin : inner_named_type tp = n) by (destruct (ex_named_cases _ _ Hn) as [-> | ->]; reflexivity).
@@ -335,7 +336,7 @@ Proof.
       rewrite rt_oof_obj in Hoof'.
       assert (Hsel : Forall (tsel tname oimpls') (flat_map rs_sels (f0 :: rest))).
       { eapply sub_typed; [|exact Happ]. rewrite <- Hin. exact Hfs. }
-      destruct (IHs f2 _ _ _ _ _ _ _ _ _ _ Hgo Hsel E1 Hmf Hoof') as [A1 A2].
+      destruct (IHs f2 _ _ _ _ _ _ _ _ _ _ Hgo Hsel Hmg E1 Hmf Hoof') as [A1 A2].
       assert (Hw : nnw tp (RtObj (rf_selset f2 e tname id (flat_map rs_sels (f0 :: rest)))) =
                    RtObj (rf_selset f2 e tname id (flat_map rs_sels (f0 :: rest)))) by (unfold nnw; destruct (is_non_null tp); reflexivity).
       rewrite Hw, rf_prop_obj. destruct (rfp_fields rpath _ []) as [r es]. cbn [fst snd] in *. subst r st1.
@@ -363,7 +364,7 @@ Lemma sim_step f1 :
 Proof.
   intros (IHs & IHf & IHc & IHl). split; [|split; [|split]].
   - (* execute_selection_set *)
-    intros f2 rpath otn oimpls oid sels st log res st' log' Hg Hs H Hres Hoof. cbn [ex_selset] in H.
+    intros f2 rpath otn oimpls oid sels st log res st' log' Hg Hs Hmg H Hres Hoof. cbn [ex_selset] in H.
     destruct (ex_collect (ex_cfuel cx) cx otn oimpls sels [] []) as [[v groups]|] eqn:Ec;
       [|rewrite rs_ret in H; injection H as <- _ _; contradiction].
     destruct f2 as [|f2]; [discriminate|]. cbn [rf_selset] in Hoof |- *.
@@ -375,6 +376,7 @@ Proof.
     destruct (collect_eq_reference cx otn oimpls _ _ _ _ _ _ _ Happ Ec Er) as [_ Hgr].
     rewrite <- Hgr in Hoof |- *.
     destruct (collect_typed s d vars Hfr otn oimpls _ _ _ _ Hs Ec) as [Hall Hkeyed].
+    pose proof (collect_creach cx otn oimpls _ _ _ _ Ec) as Hcr. cbn [cx ex_cx_for ex_schema ex_frags] in Hcr.
     apply (fields_sim (fun key fdef f0 rest => ex_field f1 cx (PsKey key :: rpath) otn oimpls oid fdef f0 rest)
              (fun fdef fl => rf_field f2 e otn oid fdef fl) rpath otn groups [] st log res st' log'); [|exact H|exact Hres|exact Hoof].
     intros key f0 rest fdef st0 log0 res0 st0' log0' Hin Ht E0 Hres0 Hoof0.
@@ -383,10 +385,19 @@ Proof.
     destruct Hkeyed as [K0 Kr].
     assert (Hok : Forall (tfield otn oimpls) (f0 :: rest)) by (constructor; assumption).
     assert (Hkey : Forall (fun g => rs_key g = key) (f0 :: rest)) by (constructor; assumption).
-    pose proof (group_types s d Hu Hm Hcov Halias otn oimpls key f0 rest fdef Hg Hok Hkey Ht) as Hty.
+    unfold groups_all in Hcr. rewrite Forall_forall in Hcr. specialize (Hcr _ Hin). cbn [fst snd] in Hcr. destruct Hcr as [C0 Cr].
+    assert (Hreach : Forall (ex_creach s (rd_frags d) otn oimpls sels) (f0 :: rest)) by (constructor; assumption).
+    assert (Hkeys : forall g1 g2, In g1 (f0 :: rest) -> In g2 (f0 :: rest) -> rs_key g1 = rs_key g2).
+    { intros g1 g2 I1 I2. rewrite Forall_forall in Hkey. rewrite (Hkey g1 I1), (Hkey g2 I2). reflexivity. }
+    assert (Hnames : Forall (fun g => rs_name g = rs_name f0) (f0 :: rest)).
+    { apply Forall_forall. intros g Ig. rewrite Forall_forall in Hreach.
+      apply (mergeable_names s (rd_frags d) sels otn oimpls g f0 Hmg Hg); [now apply Hreach|exact C0|]. apply Hkeys; [exact Ig|now left]. }
+    pose proof (group_types s d Hu Hm Hcov otn oimpls f0 rest fdef Hg Hok Hnames Ht) as Hty.
+    assert (Hmg' : mergeable (flat_map rs_sels (f0 :: rest))).
+    { apply (mergeable_sub s (rd_frags d) sels otn oimpls (f0 :: rest) Hmg Hg); [discriminate|exact Hreach|exact Hkeys]. }
     eapply IHf; eassumption.
   - (* execute_field *)
-    intros f2 rpath otn oimpls oid fdef f0 rest st log res st' log' Hg Ht Hok Hty H Hres Hoof. cbn [ex_field] in H.
+    intros f2 rpath otn oimpls oid fdef f0 rest st log res st' log' Hg Ht Hok Hty Hmg H Hres Hoof. cbn [ex_field] in H.
     destruct f2 as [|f2]; [discriminate|]. cbn [rf_field] in Hoof |- *. cbn [e rf_cx rf_s rf_w] in Hoof |- *.
     inversion Hty as [|? ? Ht0 _]; subst.
     destruct (ex_coerce_args cx fdef f0) as [args|c|].
@@ -412,17 +423,17 @@ Proof.
         -- cbn [cx ex_cx_for ex_schema] in E1. rewrite Eint in E1. rewrite rs_fail in E1. injection E1 as <- <- <-. apply agree_fail.
         -- cbn [cx ex_cx_for ex_schema] in E1. rewrite Eint in E1. rewrite rs_bind, rs_call in E1.
            destruct (world_resolve w {| ec_obj := oid; ec_field := rs_name f0; ec_args := args |}) as [j|id tn|items| |] eqn:Ew;
-             try (rewrite <- (nullify_idem (fd_ty fdef) r); eapply IHc; eassumption).
-           ++ destruct (IHc f2 _ _ _ _ _ _ _ _ _ _ _ _ Hfa E1 Hr Hoof) as [A1 A2]. split; assumption.
-           ++ destruct (IHc f2 _ _ _ _ _ _ _ _ _ _ _ _ Hfa E1 Hr Hoof) as [A1 A2]. split; assumption.
-           ++ destruct (IHc f2 _ _ _ _ _ _ _ _ _ _ _ _ Hfa E1 Hr Hoof) as [A1 A2]. split; assumption.
+             idtac.
+           ++ destruct (IHc f2 _ _ _ _ _ _ _ _ _ _ _ _ Hfa Hmg E1 Hr Hoof) as [A1 A2]. split; assumption.
+           ++ destruct (IHc f2 _ _ _ _ _ _ _ _ _ _ _ _ Hfa Hmg E1 Hr Hoof) as [A1 A2]. split; assumption.
+           ++ destruct (IHc f2 _ _ _ _ _ _ _ _ _ _ _ _ Hfa Hmg E1 Hr Hoof) as [A1 A2]. split; assumption.
            ++ rewrite rs_fail in E1. injection E1 as <- <- <-. apply agree_fail.
-           ++ destruct (IHc f2 _ _ _ _ _ _ _ _ _ _ _ _ Hfa E1 Hr Hoof) as [A1 A2]. split; assumption.
+           ++ destruct (IHc f2 _ _ _ _ _ _ _ _ _ _ _ _ Hfa Hmg E1 Hr Hoof) as [A1 A2]. split; assumption.
     + rewrite rs_bind, rs_push, rs_ret in H. injection H as <- <- <-. cbn [rf_prop]. unfold rf_null_at.
       destruct (is_non_null (fd_ty fdef)); split; reflexivity.
     + rewrite rs_ret in H. injection H as <- _ _. contradiction.
   - (* complete_value *)
-    intros f2 rpath t r otn oimpls f0 rest st log res st' log' Hfa H Hres Hoof. cbn [ex_complete] in H.
+    intros f2 rpath t r otn oimpls f0 rest st log res st' log' Hfa Hmg H Hres Hoof. cbn [ex_complete] in H.
     destruct r as [j|id tname|items| |].
     + (* a leaf *)
       destruct (rf_complete_shape f2 t (RvLeaf j) (f0 :: rest) Hoof) as [f2' Hshape]; [discriminate|]. rewrite Hshape in *.
@@ -515,7 +526,7 @@ Proof.
     + (* SkipForPartialExecution *)
       rewrite rs_ret in H. injection H as <- <- <-. destruct f2 as [|f2]; [discriminate|]. split; reflexivity.
   - (* complete_list_value *)
-    intros f2 rpath t items otn oimpls f0 rest st log res st' log' Hfa H Hres Hoof. cbn [ex_list] in H.
+    intros f2 rpath t items otn oimpls f0 rest st log res st' log' Hfa Hmg H Hres Hoof. cbn [ex_list] in H.
     destruct (rf_complete_shape f2 t (RvList items) (f0 :: rest) Hoof) as [f2' Hshape]; [discriminate|]. rewrite Hshape in *.
     assert (Hlist : forall inner, (t = TList inner \/ t = TNonNullList inner) ->
               run_sync w (ex_items_loop (fun idx it => ex_complete f1 cx (PsIdx idx :: rpath) inner it f0 rest)
@@ -532,7 +543,7 @@ Proof.
       pose proof (items_sim (fun idx it => ex_complete f1 cx (PsIdx idx :: rpath) inner it f0 rest)
                     (fun it => rf_complete f2' e inner it (f0 :: rest)) t inner rpath items 0%N [] st log res st' log') as Hsim.
       assert (Hsim' := Hsim (fun idx it st0 log0 res0 st0' log0' _ E0 Hr0 Ho0 =>
-                               IHc f2' (PsIdx idx :: rpath) inner it otn oimpls f0 rest st0 log0 res0 st0' log0' Hfi E0 Hr0 Ho0) H' Hres Hoofi).
+                               IHc f2' (PsIdx idx :: rpath) inner it otn oimpls f0 rest st0 log0 res0 st0' log0' Hfi Hmg E0 Hr0 Ho0) H' Hres Hoofi).
       clear Hsim. unfold ref_list_result in Hsim'.
       destruct (rv_has_err items).
       - rewrite rf_prop_itemfail. destruct (rfp_items inner rpath _ 0%N []) as [[[i a]|] es]; exact Hsim'.
@@ -550,10 +561,10 @@ Qed.
 Lemma sim_zero : S_selset 0 /\ S_field 0 /\ S_complete 0 /\ S_list 0.
 Proof.
   split; [|split; [|split]].
-  - intros f2 rpath otn oimpls oid sels st log res st' log' _ _ H Hres. cbn in H. injection H as <- _ _. contradiction.
-  - intros f2 rpath otn oimpls oid fdef f0 rest st log res st' log' _ _ _ _ H Hres. cbn in H. injection H as <- _ _. contradiction.
-  - intros f2 rpath t r otn oimpls f0 rest st log res st' log' _ H Hres. cbn in H. injection H as <- _ _. contradiction.
-  - intros f2 rpath t items otn oimpls f0 rest st log res st' log' _ H Hres. cbn in H. injection H as <- _ _. contradiction.
+  - intros f2 rpath otn oimpls oid sels st log res st' log' _ _ _ H Hres. cbn in H. injection H as <- _ _. contradiction.
+  - intros f2 rpath otn oimpls oid fdef f0 rest st log res st' log' _ _ _ _ _ H Hres. cbn in H. injection H as <- _ _. contradiction.
+  - intros f2 rpath t r otn oimpls f0 rest st log res st' log' _ _ H Hres. cbn in H. injection H as <- _ _. contradiction.
+  - intros f2 rpath t items otn oimpls f0 rest st log res st' log' _ _ H Hres. cbn in H. injection H as <- _ _. contradiction.
 Qed.
 
 Lemma sim_all f1 : S_selset f1 /\ S_field f1 /\ S_complete f1 /\ S_list f1.
